@@ -37,6 +37,10 @@ CONTEXTS = {
          [("Select", "lambda e: {'a': e.jets().First().m(), 'b': e.m({A})}")]),
     13: ("the call site is itself an argument of another typed call that gets a default", "evt",
          [("Select", "lambda e: e.wrap(e.m({A}))")]),
+    15: ("the nested operator's lambda is passed by keyword", "jet",
+         [("Select", "lambda e: e.jets().Where(filter=lambda j: j.m({A}) > 0).Count()")]),
+    16: ("the nested operator's lambda is passed by keyword (Select)", "jet",
+         [("Select", "lambda e: e.jets().Select(f=lambda j: j.m({A}))")]),
     14: ("inside a conditional and a comparison chain in a Where of a nested collection", "jet",
          [("Select", "lambda e: e.jets().Where(lambda j: (j.m({A}) if j.m({A}) > 0 else 0) > 1).Count()")]),
 }
